@@ -218,6 +218,7 @@ type c17Cfg struct {
 	pred  *c17Pred
 	style int64
 	ttl   bool
+	stats bool
 }
 
 func c17ParseCfg(c Case) (*c17Cfg, bool) {
@@ -229,6 +230,8 @@ func c17ParseCfg(c Case) (*c17Cfg, bool) {
 		switch l[0] {
 		case "ttl":
 			cfg.ttl = true
+		case "stats":
+			cfg.stats = true
 		case "mode":
 			if len(l) > 1 {
 				cfg.mode = l[1]
@@ -570,8 +573,16 @@ func c17ExecSQL(cfg *c17Cfg, rows []*c17Row) [][][]string {
 		}
 	})
 	maxID := 0.0
-	for _, r := range rows {
+	for i, r := range rows {
 		s.Emit(r.data)
+		if cfg.stats && i%3 == 2 {
+			// management calls in mid-stream: reading and resetting the statistics, and the manual
+			// trigger hook (a no-op for a global window), must not touch any group's running aggregates
+			time.Sleep(3 * time.Millisecond) // let the rows emitted so far reach the window (no result depends on it)
+			s.Stream().GetStats()
+			s.Stream().ResetStats()
+			s.TriggerWindow()
+		}
 		if r.id > maxID {
 			maxID = r.id
 		}
@@ -816,6 +827,10 @@ func (c17) Gen(rng *rand.Rand, tier string, idx int) Case {
 			op = append(op, hx("id"), "i:"+itoa(int64(i+1)))
 		}
 		c.Ops = append(c.Ops, op)
+	}
+	if mode == "sql" && rng.Intn(3) == 0 {
+		c.Cfg = append(c.Cfg, []string{"stats", "1"})
+		c.Stat = append(c.Stat, "management-calls-midstream")
 	}
 	if mode == "direct" && len(c.Ops) >= 6 && rng.Intn(20) == 0 {
 		// STATETTL 10 s with the reaper run by hand: after a real pause of 1.2 s every group receives a row again,
